@@ -38,6 +38,7 @@ func newOfflineClient(c *Ctx, svcs map[string]*testService, et int32) (*offlineC
 	add := func(s *testService, sname []string) error {
 		r := baseRecipe(c, s, et)
 		r.tktSName = sname
+		r.crealm, r.authCRealm = "TEST.GOKRB5", "TEST.GOKRB5" // the client of this ccache
 		m := mint(c, r)
 		tb, err := m.req.Ticket.Marshal()
 		if err != nil {
